@@ -125,8 +125,23 @@ fn main() {
         }
     }
     let code = match replay {
-        Some(path) => run_replay(&path, rep),
-        None => run(&ctx),
+        Some(path) => run_replay_generic(&id, &path, rep),
+        None => match guarded(|| run(&ctx)) {
+            Ok(c) => c,
+            Err(m) => fatal_panic(&ctx, &m, rep),
+        },
     };
     std::process::exit(code);
+}
+
+fn run_replay_generic(id: &str, path: &str, rep: ReplayFn) -> i32 {
+    let s = std::fs::read_to_string(path).unwrap_or_else(|e| machinery_failure(&format!("read {}: {}", path, e)));
+    let doc: serde_json::Value = serde_json::from_str(&s).unwrap_or_else(|e| machinery_failure(&format!("parse {}: {}", path, e)));
+    if let Some(r) = replay_generic(id, &doc["case"]) {
+        return match r {
+            Ok(()) => { println!("REPLAY property={} outcome=pass", id); 0 }
+            Err(m) => { println!("REPLAY property={} outcome=violation msg={}", id, m); 1 }
+        };
+    }
+    run_replay(path, rep)
 }
